@@ -11,7 +11,9 @@ SHARD = 700
 RULE = ('digraphs built through add_nodes/add_neighbors histories: exhaustive over all digraphs with self-loops on '
         '<= 3 nodes (quick) / <= 4 nodes (thorough) with int and identity-keyed nodes, plus random graphs up to 12 '
         '(quick) / 30 (thorough) nodes with shuffled insertion order, repeated add_neighbors calls, edges to unknown '
-        'nodes, nodes without neighbour entries and ignore_unknown=False; non-trivial = at least 2 nodes and 1 edge')
+        'nodes, nodes without neighbour entries and ignore_unknown=False; collections handed over as iterators, lists, tuples, '
+        'frozensets, dict views or sets the caller keeps and clears / refills / extends afterwards (the graph is defined by the values '
+        'at call time); non-trivial = at least 2 nodes and 1 edge')
 EXHAUSTIVE = {'quick': 'all digraphs (self-loops allowed) on <= 3 nodes', 'thorough': 'all digraphs (self-loops allowed) on <= 4 nodes'}
 TRUSTED_BASE = ['iteration order of Python sets is not modelled: outputs are compared as sets of sets, and the theorems '
                 'quantify over every root order and every adjacency order']
@@ -41,6 +43,28 @@ def graph_case(n, edges, rng, keyed='int', split=False, unknown=False, noentry=F
     return {'keyed': keyed, 'ops': ops, 'ctor_nodes': rng.random() < 0.5}
 
 
+def aliasing(c, rng):
+    """How the caller hands its collections over (never part of the graph's definition): iterators, lists, tuples, frozensets,
+    dict views, or sets of its own which it goes on using — a scratch set cleared and refilled for the next call, the same set
+    passed for two nodes, members added or dropped after the call."""
+    kinds, after = {}, {}
+    shared = rng.random() < 0.6
+    for k, o in enumerate(c['ops']):
+        r = rng.random()
+        if r < 0.45:
+            slot = 'scratch' if shared and rng.random() < 0.8 else 'own%d' % k
+            kinds[str(k)] = 'set:' + slot
+            if rng.random() < 0.7:
+                what = rng.choice(['clear', 'add', 'add', 'discard'])
+                after[str(k)] = [[slot, what, [rng.randint(0, 6) for _ in range(rng.randint(1, 3))]]]
+        elif r < 0.9:
+            kinds[str(k)] = rng.choice(['list', 'tuple', 'frozenset', 'dictkeys', 'iter'])
+    c['containers'] = kinds
+    if after:
+        c['after'] = after
+    return c
+
+
 def generate(rng, tier, rep):
     cases = []
     maxn = {'quick': 3, 'thorough': 4, 'search': 3}[tier]
@@ -66,8 +90,11 @@ def generate(rng, tier, rep):
         elif r < 0.2:     # nodes added late
             c['ops'].append(['nodes', [n, n + 1]])
             c['ops'].append(['nbrs', n, [0, n + 1, n], True])
+        if rng.random() < 0.5:
+            aliasing(c, rng)
         cases.append(c)
     for c in cases:
+        rep.count('containers=' + ('plain' if not c.get('containers') else 'kept-sets' if c.get('after') else 'mixed'))
         n = len(set(x for o in c['ops'] if o[0] == 'nodes' for x in o[1]))
         rep.count('nodes=%s' % (n if n < 5 else '5-12' if n <= 12 else '13+'))
         rep.count('keyed=' + c['keyed'])
@@ -103,11 +130,26 @@ def to_coq(c, o):
         g_list(['(%d%%nat, %s)' % (n, g_nats(l)) for n, l in o['adj']]), g_comps(o['def']), g_comps(o['triv'])))
 
 
+def drop_op(c, i):
+    ops = c['ops']
+    new = dict(c, ops=ops[:i] + ops[i + 1:])
+    for key in ('containers', 'after'):
+        if c.get(key):
+            new[key] = {str(int(k) - (int(k) > i)): v for k, v in c[key].items() if int(k) != i}
+    return new
+
+
 def shrink_candidates(c):
     ops = c['ops']
+    if c.get('after'):
+        yield {k: v for k, v in c.items() if k != 'after'}
+        for k in c['after']:
+            yield dict(c, after={a: b for a, b in c['after'].items() if a != k})
+    if c.get('containers'):
+        yield {k: v for k, v in c.items() if k not in ('after', 'containers')}
     for i in range(len(ops)):
         if len(ops) > 1:
-            yield dict(c, ops=ops[:i] + ops[i + 1:])
+            yield drop_op(c, i)
     for i, o in enumerate(ops):
         lst = o[1] if o[0] == 'nodes' else o[2]
         for j in range(len(lst)):
